@@ -19,7 +19,7 @@ def main():
     ap = argparse.ArgumentParser()
     ap.add_argument("seed_dir"); ap.add_argument("name")
     ap.add_argument("--checks", default=None); ap.add_argument("--tier", default="quick")
-    ap.add_argument("--skip-suite", action="store_true"); ap.add_argument("--seed", default="0")
+    ap.add_argument("--skip-suite", action="store_true"); ap.add_argument("--seed", default="0"); ap.add_argument("--final", action="store_true")
     a = ap.parse_args()
     prop = a.name[:3]
     checks = a.checks.split(",") if a.checks else [prop]
@@ -36,6 +36,12 @@ def main():
         out["applies"] = r.returncode == 0
         if not out["applies"]:
             out["apply_msg"] = r.stdout[-500:]
+            if a.final:
+                meta_p = os.path.join(ROOT, "seeded", a.name, "meta.json")
+                if os.path.exists(meta_p):
+                    meta = json.load(open(meta_p))
+                    meta["final_verification"] = {"repo_head": out["repo_head"], "applies": False, "note": "patch no longer applies to the repaired tree"}
+                    json.dump(meta, open(meta_p, "w"), indent=1)
             print(json.dumps(out)); return 1
         r = sh("%s timeout 600 /venv/bin/python %s" % (env, demo))
         out["demo_without"] = r.returncode; out["demo_without_tail"] = r.stdout[-300:]
@@ -60,7 +66,7 @@ def main():
             dst = os.path.join(ROOT, "seeded", a.name)
             os.makedirs(dst, exist_ok=True)
             for f in ("patch.diff", "demo.py", "notes.md"):
-                if os.path.exists(os.path.join(a.seed_dir, f)):
+                if os.path.exists(os.path.join(a.seed_dir, f)) and os.path.abspath(os.path.join(a.seed_dir, f)) != os.path.abspath(os.path.join(dst, f)):
                     shutil.copy(os.path.join(a.seed_dir, f), os.path.join(dst, f))
             meta_p = os.path.join(dst, "meta.json")
             meta = json.load(open(meta_p)) if os.path.exists(meta_p) else {}
@@ -73,6 +79,16 @@ def main():
                          "results": {c: {"rc": v["rc"], "summary": v["summary"], "first_violation": (v["first"] or [None])[0]} for c, v in out["checks"].items()}})
             meta["caught_by"] = sorted(set(meta.get("caught_by", [])) | set(out["caught_by"]))
             json.dump(meta, open(meta_p, "w"), indent=1)
+        if a.final:
+            # the last verification against the final trees: recorded whether or not the change still manifests
+            meta_p = os.path.join(ROOT, "seeded", a.name, "meta.json")
+            if os.path.exists(meta_p):
+                meta = json.load(open(meta_p))
+                meta["final_verification"] = {"repo_head": out["repo_head"], "verif_commit": sh("git -C %s rev-parse --short HEAD" % ROOT).stdout.strip(),
+                                              "applies": out.get("applies"), "demo_without_change_exit": out.get("demo_without"), "demo_with_change_exit": out.get("demo_with"),
+                                              "baseline_suite_with_change": out.get("suite"), "confirmed": out.get("confirmed"), "caught_by": out.get("caught_by"),
+                                              "summaries": {c: v["summary"] for c, v in out.get("checks", {}).items()}}
+                json.dump(meta, open(meta_p, "w"), indent=1)
     finally:
         sh("git -C /repo worktree remove --force %s" % wt); sh("rm -rf %s %s" % (nbc, wt))
     print(json.dumps(out, indent=1))
